@@ -1,7 +1,45 @@
 /// Generate a random frame mask.
 #[inline]
 pub fn generate_mask() -> [u8; 4] {
+    #[cfg(tungstenite_verif)]
+    if let Some(mask) = verif_hook::next_mask() {
+        return mask;
+    }
     rand::random()
+}
+
+/// Verification hook: a per-thread queue of masks that `generate_mask` consumes before
+/// falling back to `rand::random()`. Compiled only with `--cfg tungstenite_verif`.
+#[cfg(tungstenite_verif)]
+pub mod verif_hook {
+    use std::{cell::RefCell, collections::VecDeque};
+
+    thread_local! {
+        static MASKS: RefCell<VecDeque<[u8; 4]>> = RefCell::new(VecDeque::new());
+    }
+
+    /// Replace the queue of masks the next calls of `generate_mask` will return.
+    pub fn set_masks(masks: &[[u8; 4]]) {
+        MASKS.with(|q| {
+            let mut q = q.borrow_mut();
+            q.clear();
+            q.extend(masks.iter().copied());
+        });
+    }
+
+    /// Number of masks still queued.
+    pub fn remaining() -> usize {
+        MASKS.with(|q| q.borrow().len())
+    }
+
+    pub(super) fn next_mask() -> Option<[u8; 4]> {
+        MASKS.with(|q| q.borrow_mut().pop_front())
+    }
+
+    /// Direct access to the masking routine for alignment tests.
+    pub fn apply_mask(buf: &mut [u8], mask: [u8; 4]) {
+        super::apply_mask(buf, mask);
+    }
 }
 
 /// Mask/unmask a frame.
